@@ -18,6 +18,10 @@ def driver(scenarios, tag):
 def sig_of(s):
     return {"mode": s["mode"], "periodic": s["periodic"],
             "reuse": any(t.get("op") == "resched" for t in s.get("plan", [])),
+            # a periodic job with two run-now requests in flight whose parent context is cancelled (finding
+            # C02-periodic-runnow-blocked-behind-pending-signal)
+            "two_runners_ctx": bool(s.get("periodic")) and any(t.get("op") == "ctx" for t in s.get("plan", []))
+            and len({t["who"] for t in s.get("plan", []) if t.get("op") == "call" and t["who"][0] in "ci"}) >= 2,
             "entry_points": ",".join(sorted(set(x[0] for x in s.get("apis", []) + s.get("caller_names", []) + s.get("cancel_names", [])
                                                 if x[0] in "ijp"))) or "plain"}
 
@@ -144,6 +148,16 @@ def directed_periodic(base):
     return out
 
 
+def finding_scenarios(base):
+    """the history of the open finding C02-periodic-runnow-blocked-behind-pending-signal, re-observed in every run:
+    a run-now request claims a periodic job while its timer branch is under way (the instance runs by the timer and
+    the request's signal stays pending), a second run-now request claims the job after the instance, the parent
+    context is cancelled: the second request blocks for ever on the full run channel with the job's state lock held,
+    and the goroutine blocks in finaliseJob on that lock"""
+    plan = [{"op": "timer", "who": "env"}, {"op": "step", "who": "g"}, {"op": "call", "who": "c1"}, {"op": "step", "who": "i1"}, {"op": "call", "who": "i1"}, {"op": "step", "who": "i1"}, {"op": "quiet", "who": "env"}, {"op": "step", "who": "g"}, {"op": "call", "who": "j1"}, {"op": "step", "who": "g"}, {"op": "step", "who": "c1"}, {"op": "quiet", "who": "env"}, {"op": "timer", "who": "env"}, {"op": "ctx", "who": "env"}, {"op": "step", "who": "g"}, {"op": "step", "who": "g"}, {"op": "step", "who": "g"}, {"op": "step", "who": "g"}, {"op": "resched", "who": "env"}, {"op": "probe", "who": "env"}, {"op": "step", "who": "g"}, {"op": "step", "who": "g"}, {"op": "timer", "who": "env"}, {"op": "step", "who": "g"}, {"op": "step", "who": "g"}, {"op": "step", "who": "j1"}, {"op": "quiet", "who": "env"}]
+    return [{"sc": base, "mode": "gated", "periodic": True, "hold": False, "plan": plan, "instances": 3, "apis": ["i1", "j1"]}]
+
+
 def free_scenarios(n, base, rnd):
     out = []
     for i in range(n):
@@ -232,7 +246,7 @@ def run(tier):
             if any(t["who"] in m for t in x["plan"]):
                 pextra.append(dict(x, sc=x["sc"] + 400000 + 1000 * k,
                                    plan=[dict(t, who=m.get(t["who"], t["who"])) for t in x["plan"]], apis=sorted(m.values())))
-    periodic = with_apis(periodic, vf.seed()) + pextra
+    periodic = with_apis(periodic, vf.seed()) + pextra + finding_scenarios(99000)
     vf.conformance(v, one_off + free, driver, "Trace_Scheduler", "Trace_Scheduler.cfg", sig_of, nontrivial,
                    dfs=True, chunk=1500)
     vf.conformance(v, periodic, driver, "Trace_Scheduler", "Trace_Scheduler_periodic.cfg", sig_of, nontrivial,
